@@ -192,6 +192,9 @@ def write_evidence(pid, tier, seed, spec, items, results, ginfo, wall, nviol, kn
         hs.append({k: r.get(k) for k in ("harness", "kind", "status", "reason", "unwind", "bounds", "wall_s", "cbmc_s",
                                           "n_checks", "undetermined", "stats", "stubs", "loops_bounded", "note",
                                           "tagged_fail", "known_finding", "engine", "queries") if r.get(k) not in (None, [], {})})
+    for r in results:
+        for t in r.get("decided_tags", [])[:12]:
+            samples.append({"obligation_decided": t, "harness": r["harness"].split("::")[-1], "verdict": "holds for every symbolic value within the bounds; its reachability marker is satisfiable"})
     for c in sorted(covers):
         samples.append({"cover_witness_satisfied": c})
     if not samples:
